@@ -227,6 +227,13 @@ func runC17(c *Ctx) {
 				// len < 16, or len < headEnd(t) for every admitted type
 				ok := ret.St.Entails(absint.Con{L: absint.Const(spec.MinPrefix - 1).Sub(lenData), Rel: absint.GE})
 				if !ok {
+					// 16 bytes or more: only a packet that starts with the marker can be "too short"; anything else is unqualified
+					if mv, known := markerFact(ret.St); !known || !mv {
+						setF("E3.classify|"+fname+" / header-too-short for >= 16 bytes only after the marker matched", false,
+							"ErrHeaderLength2Short is returned for data of 16 bytes or more on a path where the 01cd marker has not been found to match: garbage is reported as a truncated packet instead of unqualified data; path "+trace)
+					} else {
+						setF("E3.classify|"+fname+" / header-too-short for >= 16 bytes only after the marker matched", true, "")
+					}
 					types := feasibleTypes(ret.St)
 					ok = len(types) > 0
 					for _, t := range types {
